@@ -736,7 +736,7 @@ def p7(ctx: Ctx):
 # P8 NEXT-PAIRING (idiom rule)
 
 
-@rule("P8", "NEXT-PAIRING: the FOR stack is popped once for every loop a NEXT closes", ["C02", "C07"], floor=1, soft=True)
+@rule("P8", "NEXT-PAIRING: the FOR stack is popped once for every loop a NEXT closes", ["C02", "C07", "C09"], floor=1, soft=True)
 def p8(ctx: Ctx):
     py = pyfacts(ctx)
     if "BasicNextPatcherVisitor" not in py.classes:
